@@ -25,6 +25,7 @@ type docGen struct {
 	frags     []string
 	fragNames []string
 	fragType  map[string]string
+	fragOpen  map[string]bool // under construction: spreading one of these would close a cycle
 	nfrag     int
 	nalias    int
 	size      int // selections emitted; bounds the document
@@ -456,7 +457,7 @@ func (g *docGen) fragment(t *GType, depth int) string {
 	if len(g.fragNames) > 0 && r.Chance(1, 4) {
 		// reuse an existing fragment whose type condition is t
 		for _, n := range g.fragNames {
-			if g.fragType[n] == t.Name {
+			if g.fragType[n] == t.Name && !g.fragOpen[n] {
 				return n
 			}
 		}
@@ -475,7 +476,9 @@ func (g *docGen) fragment(t *GType, depth int) string {
 			cond += "q"
 		}
 	}
+	g.fragOpen[name] = true
 	body := g.selection(t, depth, "  ", newScope(), true)
+	g.fragOpen[name] = false
 	if g.fault("fragment-cycle", 12) {
 		body += "  ..." + name + "\n"
 	} else if len(g.fragNames) > 1 && g.fault("fragment-cycle-2", 12) {
@@ -554,7 +557,7 @@ func (g *docGen) operation(kind, name string) string {
 // GenDoc renders one executable document over s with up to nfaults injected faults.
 // It returns the text and the names of the faults actually injected.
 func GenDoc(r *Rng, s *GSchema, nfaults int) (string, []string) {
-	g := &docGen{r: r, s: s, faults: nfaults, fragType: map[string]string{}}
+	g := &docGen{r: r, s: s, faults: nfaults, fragType: map[string]string{}, fragOpen: map[string]bool{}}
 	nops := r.Weighted([]int{0, 6, 2, 1})
 	var ops []string
 	for i := 0; i < nops; i++ {
